@@ -37,7 +37,11 @@ InfoInvs == {[Inv("template", "", FALSE, "stdin", FALSE, {}, "", FALSE, st, FALS
             \cup {Inv("version", "", FALSE, "stdin", FALSE, {}, "", FALSE, TRUE, FALSE, "wf", "pipe")}
 \* a document of more than 1 MiB (tens of thousands of small roots): size must not change what an invocation is wired to
 BigInvs == {Inv("output", f, m, file, FALSE, {}, "", FALSE, FALSE, FALSE, "big", "pipe") : f \in {"", "json"}, m \in B, file \in {"stdin", "existing"}}
-BaseInvs == BigInvs \cup OutputInvs \cup MkdirInvs \cup VerifyInvs \cup TemplateInvs \cup DotInvs \cup TimeoutInvs \cup WatchInvs \cup UsageInvs \cup InfoInvs
+\* stdout is a pipe nobody reads any more
+BrokenInvs == {Inv("output", f, m, file, FALSE, {}, "", FALSE, FALSE, FALSE, d, "broken") : f \in {"", "json"}, m \in B, file \in {"stdin", "existing"}, d \in {"wf", "empty", "malformed"}}
+              \cup {Inv("mkdir", "", FALSE, "stdin", dr, {".x"}, "", FALSE, FALSE, FALSE, "wf", "broken") : dr \in B}
+              \cup {Inv("template", "", FALSE, "stdin", FALSE, {}, "", FALSE, FALSE, FALSE, "wf", "broken")}
+BaseInvs == BigInvs \cup BrokenInvs \cup OutputInvs \cup MkdirInvs \cup VerifyInvs \cup TemplateInvs \cup DotInvs \cup TimeoutInvs \cup WatchInvs \cup UsageInvs \cup InfoInvs
 \* every invocation in its three spellings, with the argv words the real binary is given
 Spelled(S, sps) == {[ [i EXCEPT !.sp = sp] EXCEPT !.argv = Argv([i EXCEPT !.sp = sp])] : i \in S, sp \in sps}
 AllInvs == Spelled(BaseInvs, {"long", "short", "eq"})
